@@ -5,7 +5,7 @@ FRAME_GEN = ("frames generated version-valid by construction (gen.Frame: 43 mess
              "version's specification defines them, boundary-biased values, bodies up to ~256 KiB expanded from (class,seed,length) triples) "
              "x compression allowed for the version")
 
-prop("C01", run="^TestC01$", level="exploration",
+prop("C01", run="^TestC01", level="exploration",
      quick=(16, 2500, 900), thorough=(16, 60000, 7200),
      rule=FRAME_GEN + "; oracle: encode, decode, canonical equality (nil==empty collections, IPv4 4/16 bytes), reader fully consumed, input not modified, "
           "plus message-level Encode/Decode; non-trivial = frame has an optional body part/header flag or a message body > 8 bytes; distinct by canonical frame hash x compression",
@@ -62,7 +62,8 @@ prop("C02", run="^TestC02", level="exploration",
      quick=(16, 2000, 900), thorough=(16, 60000, 7200),
      rule=FRAME_GEN + " (write types restricted to those the version's spec text lists); oracle: independent reference encoder written from specs/*.spec - header byte-exact, body byte-exact modulo order of wire-map entries "
           "(compressed bodies: independent LZ4/Snappy decoders must recover a reference-conforming body, LZ4 length prefix big-endian); reference bytes with generated map-entry orders and independently "
-          "compressed (literal-only) bodies must decode to the frame; plus the exhaustive 256x256 (version byte, opcode) header sweep against a typed-in accept/reject table through DecodeHeader and DecodeFrame; "
+          "compressed (literal-only) bodies must decode to the frame; specification-legal forms the library never emits (per-column table specs with the global flag clear, v2 type option 0x000A Text, non-0/1 true bytes) must decode to the frame they denote; "
+          "every optional-field subset of QueryOptions / Batch / RowsMetadata per version is enumerated against the reference in both directions; plus the exhaustive 256x256 (version byte, opcode) header sweep against a typed-in accept/reject table through DecodeHeader and DecodeFrame; "
           "non-trivial = body has >= 2 annotated fields; distinct by reference bytes hash; header sweep distinct by construction",
      assumptions=["the reference encoder (harness/ref, ~900 lines) is trusted base; it reads library structs as plain data and computes flags/counts/lengths itself",
                   "flag choice global_tables_spec mirrors the library (the spec leaves it to the encoder)",
